@@ -2,7 +2,7 @@
    recorded inputs of one call and are compared with the recorded outputs (toleranced: |model - impl| <= 1e-9 * scale,
    exact where no arithmetic is involved).  Also the generated test functions (value and gradient) so that the g / dg
    collected by MMA.response can be compared.  Definitions only. *)
-From Coq Require Import ZArith QArith Qabs String List Bool.
+From Coq Require Import ZArith QArith Qabs Qround String List Bool.
 From Pymoto Require Import Base.Num Base.Cmp Base.MMANum Model.MMAform Model.MMAvars.
 Import ListNotations.
 
@@ -114,3 +114,41 @@ Definition expand_ok (n nvars : nat) (cum : list nat) (b : bspec Q) (r : option 
   opt_eqb (expand_bound 0%Q 0%Q n nvars cum b) r.
 Definition split_ok (vals : list Q) (cum : list nat) (r : option (list (list Q))) : bool :=
   option_eqb Qll_eqb (split_from_array vals cum) r.
+
+(* ---- variable handling with dtypes (exact).  astype over Q: storing into an integer dtype truncates towards zero;
+   storing into float64 keeps the value (the recorded values are binary64 numbers; integers below 2^53 and float32
+   numbers are binary64 numbers); storing into float32 is taken as exact too, which holds for the float32-representable
+   values the generator uses (and never happens in the unchanged code: MMAvarsP.concat_t_dtype). *)
+Definition Qtrunc (q : Q) : Q := if Qle_bool 0 q then inject_Z (Qfloor q) else inject_Z (Qceiling q).
+Definition convQ (src dst : dtype) (q : Q) : Q := match dst with I32 | I64 => Qtrunc q | F32 | F64 => q end.
+Definition dtype_eqb (a b : dtype) : bool :=
+  match a, b with I32, I32 | I64, I64 | F32, F32 | F64, F64 => true | _, _ => false end.
+Definition tarr_eqb (a b : tarr Q) : bool := dtype_eqb (fst a) (fst b) && Ql_eqb (snd a) (snd b).
+Definition tstate_eqb (a b : tstate Q) : bool :=
+  match a, b with
+  | TNone, TNone => true
+  | TVal s x, TVal t y => dtype_eqb s t && sval_eqb x y
+  | _, _ => false
+  end.
+Definition otarr_eqb (a b : option (tarr Q)) : bool :=
+  match a, b with Some x, Some y => tarr_eqb x y | None, None => true | _, _ => false end.
+(* _concatenate_to_array on states of given dtypes: dtype and values of the result, cumulative indices (None = ValueError) *)
+Definition tconcat_ok (states : list (tstate Q)) (r : option (tarr Q * list nat)) : bool :=
+  match concat_to_array_t convQ states, r with
+  | Some (v, c), Some (rv, rc) => tarr_eqb v rv && natl_eqb c rc
+  | None, None => true
+  | _, _ => false
+  end.
+(* the variable handling of MMA.response from the initial states to the expanded xmin / xmax / move (None = RuntimeError) *)
+Definition tvars_ok (states : list (tstate Q)) (xmin xmax move : tbspec Q) (r_xval : tarr Q) (r_cum : list nat)
+           (r_xmin r_xmax r_move : option (tarr Q)) : bool :=
+  match concat_to_array_t convQ states with
+  | Some (xv, cum) =>
+      tarr_eqb xv r_xval && natl_eqb cum r_cum &&
+      otarr_eqb (expand_bound_t 0%Q convQ 0%Q xv (length states) cum xmin) r_xmin &&
+      otarr_eqb (expand_bound_t 0%Q convQ 0%Q xv (length states) cum xmax) r_xmax &&
+      otarr_eqb (expand_move_t 0%Q convQ 0%Q xv (length states) cum move) r_move
+  | None => false
+  end.
+Definition twriteback_ok (xval : tarr Q) (cum : list nat) (r_states : list (tstate Q)) : bool :=
+  list_eqb tstate_eqb (writeback_t 0%Q xval cum (length r_states)) r_states.
